@@ -4,8 +4,8 @@ exists with concrete, regex and wildcard patterns of depth 0-5, depth()."""
 import re
 from engine import Spec
 
-NAMES = ["", "a", "ab", "abc", "b", "ba", "bar", "baz", "foo", "qux", "x1", "zz"]
-REGEXES = [".*", "a.*", "ba[rz]", "b.*", "(foo|qux)", ".", "ab?c?", "[a-f].*", ".+z", "x1|zz|a", "b", "q"]
+NAMES = ["", "a", "ab", "abc", "b", "ba", "bar", "baz", "foo", "qux", "x1", "zz", "zz\0", "zz\0y"]   # the last two contain a NUL byte; ids follow the byte-wise order
+REGEXES = [".*", "a.*", "ba[rz]", "b.*", "(foo|qux)", ".", "ab?c?", "[a-f].*", ".+z", "x1|zz|a", "b", "q", "zz", "zz.y", "zz."]
 SIGS = ["()", "(int)", "(std::string)", "(const std::string&)", "(int, std::string)"]
 
 
@@ -15,7 +15,7 @@ def match_sets():
 
 def rand_key(rng, keys):
     """a concrete key: often an existing key, a prefix or an extension of one (prefix/extension cross-talk)"""
-    pool = [1, 2, 4, 5, 6, 7, 8, 9] if rng.chance(3, 4) else list(range(1, len(NAMES)))
+    pool = [1, 2, 4, 5, 6, 7, 8, 9] if rng.chance(3, 4) else ([11, 12, 13, 1, 13, 11] if rng.chance(1, 3) else list(range(1, len(NAMES))))
     if keys and rng.chance(1, 2):
         k = list(rng.choice(keys))
         r = rng.below(4)
@@ -185,7 +185,7 @@ class C06(RouterSpec):
     design_ref = "DESIGN.md section 4, C06"
     rule = ("histories of 2-45 operations on SubjectRouter / ConcurrentSubjectRouter (one thread): subscribe under concrete keys of depth "
             "0-5 over 11 names (prefixes, extensions and equal names on different levels favoured), unsubscribe/mute/unmute/invalidate, "
-            "notify with concrete / regex (12 regexes) / wildcard levels, shrink, exists, depth; five argument signatures incl. by-value "
+            "notify with concrete / regex (15 regexes; two of the 13 level names contain a NUL byte) / wildcard levels, shrink, exists, depth; five argument signatures incl. by-value "
             "int and std::string through regex levels; non-trivial = at least two subscriptions and one notify; distinct = distinct case text")
     level_text = ("Kernel-checked: for every tree reachable by subscribe/unsubscribe/flag/notify/shrink histories and every pattern, notify "
                   "returns no signature mismatch (undefined behaviour) and invokes exactly the valid unmuted subscriptions of the keys "
